@@ -1,11 +1,13 @@
 import LiquidModel.Drv.Codec
 import LiquidModel.Drv.Render
+import LiquidModel.Drv.C05
 namespace Liquid.Drv
 
 /-- op name ↦ handler; each `Drv/*.lean` contributes its ops here. -/
 def dispatch (op : String) : Option (List String → String) :=
   match op with
   | "render" => some (renderOp baseFilters)
+  | "c05" => some c05Op
   | _ => none
 
 end Liquid.Drv
